@@ -48,31 +48,37 @@ SIMPLE = {"name": "a", "up": "A", "int": "1", "str": '@""', "bytes": '""', "disc
 KEEP_UP = {"True", "False", "Pair", "Void", "Some", "None"}
 
 
-def _candidates(toks):
-    """token lists, most aggressive first"""
+def _stage_lines(toks):
+    """delete runs of whole lines: halves, quarters, ... single lines (ddmin granularity)"""
     n = len(toks)
+    starts = [i for i, t in enumerate(toks) if t[2] > 0 or i == 0]
+    L = len(starts)
+    bounds = starts + [n]
+    size = max(L // 2, 1)
+    while size >= 1:
+        for k in range(0, L, size):
+            a, b = bounds[k], bounds[min(k + size, L)]
+            if b - a < n:
+                yield (a, b, ())
+        if size == 1:
+            break
+        size //= 2
+
+
+def _stage_groups(toks):
     pairs = lex.match_brackets(toks)
-    cands = []
-    # statement / line groups
-    starts = [i for i, t in enumerate(toks) if t[2] > 0] + [n]
-    prev = 0
-    for s in starts:
-        if s > prev:
-            cands.append(toks[:prev] + toks[s:])
-        prev = s
-    for i, j in pairs.items():
-        cands.append(toks[:i] + toks[j + 1:])  # whole group
+    order = sorted(pairs.items(), key=lambda ij: ij[0] - ij[1])  # largest first
+    for i, j in order:
+        yield (i, j + 1, ())  # whole group
         k = i
         while k > 0 and (toks[k - 1][0] in ("name", "up") or toks[k - 1][1] == ".") and i - k < 6:
             k -= 1
         if k < i:
-            cands.append(toks[:k] + toks[j + 1:])  # callee + group
-            cands.append(toks[:k] + [("name", "a", toks[k][2])] + toks[j + 1:])  # -> atom
-        cands.append(toks[:i] + [("name", "a", toks[i][2])] + toks[j + 1:])
-        cands.append(toks[:i] + toks[i + 1: j] + toks[j + 1:])  # unwrap
+            yield (k, j + 1, ())  # callee + group
+            yield (k, j + 1, (("name", "a", toks[k][2]),))  # -> atom
+        yield (i, j + 1, (("name", "a", toks[i][2]),))
         if j > i + 1:
-            cands.append(toks[: i + 1] + toks[j:])  # empty the group
-            # keep only one comma-separated element
+            yield (i + 1, j, ())  # empty the group
             depth = 0
             cuts = [i]
             for m in range(i + 1, j):
@@ -85,56 +91,195 @@ def _candidates(toks):
             cuts.append(j)
             if len(cuts) > 2:
                 for a, b in zip(cuts, cuts[1:]):
-                    cands.append(toks[: i + 1] + toks[a + 1: b] + toks[j:])  # only this element
                     if a > i:
-                        cands.append(toks[:a] + toks[b:])  # drop this element (and the comma before it)
+                        yield (a, b, ())  # drop this element (and the comma before it)
                     else:
-                        cands.append(toks[: i + 1] + toks[b + (1 if b < j else 0):])  # drop the first element
-    for w in (4, 3, 2, 1):
+                        yield (i + 1, b + (1 if b < j else 0), ())  # drop the first element
+                for a, b in zip(cuts, cuts[1:]):
+                    yield (i + 1, j, tuple(toks[a + 1: b]))  # only this element
+    for i, j in order:
+        yield ("unwrap", i, j)
+
+
+def _stage_windows(toks):
+    n = len(toks)
+    for w in ((8, 4, 2, 1) if n > 40 else (2, 1)):
+        if w >= n:
+            continue
         for i in range(0, n - w + 1):
-            cands.append(toks[:i] + toks[i + w:])
-    # simplifications that do not shrink (each token at most once: only if not yet canonical)
+            yield (i, i + w, ())
+
+
+WRAP_HEAD = [("kw", "fn", 0), ("name", "a", 0), ("open", "(", 0), ("close", ")", 0), ("open", "{", 0)]
+WRAP_TAIL = [("close", "}", 0)]
+
+
+def _stage_hoist(toks):
+    """one-shot: a sub-expression (bracket group with its callee, or a run of lines) put
+    alone into `fn a() { .. }`, smallest first: jumps straight to the faulty construct"""
+    n = len(toks)
+    if n < 14:
+        return
+    pairs = lex.match_brackets(toks)
+    spans = set()
+    for i, j in pairs.items():
+        spans.add((i, j + 1))
+        if j > i + 1:
+            spans.add((i + 1, j))
+        k = i
+        while k > 0 and (toks[k - 1][0] in ("name", "up") or toks[k - 1][1] in (".", "-", "!")) and i - k < 6:
+            k -= 1
+            spans.add((k, j + 1))
+        # the group with what follows it on the same chain: `( .. ) ( .. )`, `( .. ) . x`
+        e = j + 1
+        while e < n and (toks[e][1] in (".", "?") or toks[e][0] in ("ord",) or (toks[e][0] in ("name", "up") and toks[e - 1][1] == ".") or (toks[e][1] == "(" and e in pairs and toks[e][2] == 0)):
+            e = pairs[e] + 1 if toks[e][1] == "(" else e + 1
+            spans.add((i, e))
+            if k < i:
+                spans.add((k, e))
+    starts = [i for i, t in enumerate(toks) if t[2] > 0] + [n]
+    for a, b in zip(starts, starts[1:]):
+        spans.add((a, b))
+    for a, b in sorted(spans, key=lambda ab: (ab[1] - ab[0], ab[0])):
+        if 0 < b - a < n - 6:
+            body = list(toks[a:b])
+            body[0] = (body[0][0], body[0][1], 0)
+            yield ("set", tuple(WRAP_HEAD + body + WRAP_TAIL))
+
+
+def _stage_canon(toks):
+    """one-shot: identifiers renamed in order of appearance (the same construct found in
+    different inputs then asks the driver the very same questions: cache hits)"""
+    names, ups = {}, {}
+    out = []
+    for k, t, nl in toks:
+        if k == "name":
+            t = names.setdefault(t, "abcdefghijklmnopqrstuvwxyz"[len(names) % 26])
+        elif k == "up" and t not in KEEP_UP:
+            t = ups.setdefault(t, "ABCDEFGHIJKLMNOPQRSTUVWXYZ"[len(ups) % 26])
+        out.append((k, t, nl))
+    full = [(k, SIMPLE[k] if k in ("int", "str") and False else t, nl) for k, t, nl in out]
+    yield ("set", tuple(full))
+
+
+def _stage_simplify(toks):
     for i, (k, t, nl) in enumerate(toks):
         c = SIMPLE.get(k)
-        if c and t != c and not (k == "up" and t in KEEP_UP) and not (k == "name" and len(t) == 1) and not (k == "up" and len(t) == 1):
-            cands.append(toks[:i] + [(k, c, nl)] + toks[i + 1:])
+        if c and t != c and not (k == "up" and t in KEEP_UP) and not (k in ("name", "up") and len(t) == 1):
+            yield (i, i + 1, ((k, c, nl),))
         if nl > 1:
-            cands.append(toks[:i] + [(k, t, 1)] + toks[i + 1:])
-    seen = set()
-    out = []
-    base = tuple(toks)
-    for c in cands:
-        key = tuple(c)
-        if key in seen or key == base or not c:
-            continue
-        seen.add(key)
-        out.append(c)
-    out.sort(key=lambda c: (len(c), sum(len(t[1]) for t in c)))
-    return out
+            yield (i, i + 1, ((k, t, 1),))
+
+
+STAGES = [_stage_lines, _stage_groups, _stage_windows, _stage_simplify]
+
+
+def _apply(toks, d):
+    if d[0] == "set":
+        return list(d[1])
+    if d[0] == "unwrap":
+        _, i, j = d
+        return toks[:i] + toks[i + 1: j] + toks[j + 1:]
+    a, b, repl = d
+    return toks[:a] + list(repl) + toks[b:]
 
 
 class Minimiser:
-    def __init__(self, src, target, max_rounds=400):
+    """Greedy staged delta debugging; stages are cycled until one full cycle brings no
+    progress.  After a success the same stage is restarted (not the whole cycle)."""
+
+    def __init__(self, src, target, max_tests=20000):
         self.target = target
         self.toks = lex.tokens(src)
         self.src = _render(self.toks)
         self.done = False
         self.rounds = 0
-        self.max_rounds = max_rounds
         self.tests = 0
+        self.max_tests = max_tests
         self.verified = None  # the re-rendered original still fails?
-        self._queue = None
-        self._wave = None
         self._phase = "verify"
+        self._chunks_ok = True
+        self._stage = 0
+        self._gen = None
+        self._idle_stages = 0  # consecutive stages finished without progress
+        self._wave = None
+        self._pre = [_stage_hoist, _stage_canon]
+        self._in_pre = False
+        self._pending_advance = False
+        self._in_chunks = False
+        self.budget_exhausted = False
 
-    def next_batch(self):
+    def _chunk_candidates(self):
+        """definition level first: one definition alone, then all but one"""
+        chunks = lex.split_definitions(self.toks)
+        if len(chunks) <= 1:
+            return None
+        cands = [(0, a, ()) if False else ("keep", a, b) for a, b in chunks]
+        if len(chunks) > 2:
+            cands += [(a, b, ()) for a, b in chunks]
+        return iter(cands)
+
+    def _next_gen(self):
+        if self._chunks_ok:
+            g = self._chunk_candidates()
+            if g is not None:
+                self._in_chunks = True
+                return g
+            self._chunks_ok = False
+        self._in_chunks = False
+        if self._pre:
+            self._in_pre = True
+            return self._pre.pop(0)(self.toks)
+        self._in_pre = False
+        return STAGES[self._stage](self.toks)
+
+    def next_batch(self, wave=WAVE):
         if self._phase == "verify":
             return [self.src]
-        if self._queue is None:
-            self._queue = _candidates(self.toks)
-        self._wave = self._queue[:WAVE]
-        self._queue = self._queue[WAVE:]
-        return [_render(c) for c in self._wave]
+        out = []
+        self._wave = []
+        seen = set()
+        if self._idle_stages >= len(STAGES):
+            self.done = True
+            return out
+        while len(out) < wave:
+            if self._gen is None:
+                self._gen = self._next_gen()
+            d = next(self._gen, None)
+            if d is None:
+                # stage exhausted without progress
+                self._gen = None
+                if self._in_chunks:
+                    self._chunks_ok = False
+                    continue
+                if self._in_pre:
+                    if out:
+                        break
+                    continue
+                self._pending_advance = True
+                if out:
+                    break  # test what we have before moving on to the next stage
+                self._advance()
+                if self._idle_stages >= len(STAGES):
+                    break
+                continue
+            c = self.toks[d[1]: d[2]] if d[0] == "keep" else _apply(self.toks, d)
+            if not c or len(c) == len(self.toks) and c == self.toks:
+                continue
+            text = _render(c)
+            if text in seen:
+                continue
+            seen.add(text)
+            self._wave.append(c)
+            out.append(text)
+        if not out:
+            self.done = True
+        return out
+
+    def _advance(self):
+        self._pending_advance = False
+        self._idle_stages += 1
+        self._stage = (self._stage + 1) % len(STAGES)
 
     def feed(self, results):
         self.tests += len(results)
@@ -148,13 +293,17 @@ class Minimiser:
             if holds(r, _render(c), self.target):
                 self.toks = c
                 self.src = _render(c)
-                self._queue = None
+                self._gen = None
+                self._idle_stages = 0
+                self._pending_advance = False  # progress: run the same stage again
                 self.rounds += 1
-                if self.rounds >= self.max_rounds:
-                    self.done = True
-                return
-        if not self._queue:
+                break
+        else:
+            if getattr(self, "_pending_advance", False):
+                self._advance()
+        if self.tests >= self.max_tests:
             self.done = True
+            self.budget_exhausted = True
 
 
 def minimise_all(items, timeout=20.0):
@@ -162,18 +311,21 @@ def minimise_all(items, timeout=20.0):
     ms = [Minimiser(s, t) for s, t in items]
     active = list(ms)
     while active:
-        batches = [m.next_batch() for m in active]
+        wave = max(WAVE, min(512, 1024 // len(active)))
+        batches = [m.next_batch(wave) for m in active]
         flat = [s for b in batches for s in b]
+        owner = [m for m, b in zip(active, batches) for _ in b]
         res = drv.fmt_many(flat, trees=False, timeout=timeout)
         # full trees only where the verdict depends on them
-        want = [i for i, (m, r) in enumerate(zip([m for m, b in zip(active, batches) for _ in b], res)) if m.target[0] == "ast-changed" and judge.needs_trees(r)]
+        want = [i for i, (m, r) in enumerate(zip(owner, res)) if m.target[0] == "ast-changed" and judge.needs_trees(r)]
         if want:
             r2 = drv.fmt_many([flat[i] for i in want], trees=True, timeout=timeout)
             for i, r in zip(want, r2):
                 res[i] = r
         pos = 0
         for m, b in zip(active, batches):
-            m.feed(res[pos: pos + len(b)])
+            if b:
+                m.feed(res[pos: pos + len(b)])
             pos += len(b)
         active = [m for m in active if not m.done]
     return ms
